@@ -43,6 +43,17 @@ def bool_to_int(expr: str) -> str:
     return expr.replace("false", "0").replace("true", "1")
 
 
+def _float_denominators(expr: sympy.Expr) -> sympy.Expr:
+    """Turn integer denominators in a (nested, unevaluated) product into floats"""
+    if expr.is_Pow and expr.base.is_Integer and expr.exp.is_Rational and expr.exp.is_negative:
+        return sympy.Pow(sympy.Float(expr.base), expr.exp, evaluate=False)
+    if expr.is_Mul:
+        args = [_float_denominators(arg) for arg in expr.args]
+        if any(new is not old for new, old in zip(args, expr.args)):
+            return sympy.Mul(*args, evaluate=False)
+    return expr
+
+
 class GotranCCodePrinter(C99CodePrinter):
     def __init__(self, *args, **kwargs):
         super().__init__(*args, **kwargs)
@@ -50,6 +61,21 @@ class GotranCCodePrinter(C99CodePrinter):
 
     def _print_Float(self, flt):
         return self._print(str(float(flt)))
+
+    def _print_Mul(self, expr):
+        # A quotient of integer literals, e.g. 1/4, is kept as the unevaluated
+        # product 1*4**(-1). Print integer denominators as floating point
+        # numbers, otherwise C would perform integer division (1/4 == 0).
+        return super()._print_Mul(_float_denominators(expr))
+
+    def _print_Mod(self, expr):
+        # fmod takes the sign of the dividend, while Mod (as in sympy and python)
+        # takes the sign of the divisor
+        num, den = (self._print(arg) for arg in expr.args)
+        rem = f"fmod({num}, {den})"
+        # Add the divisor only if the remainder is non-zero and has the wrong sign
+        # (adding it unconditionally would lose precision for small remainders)
+        return f"((({rem} != 0) && (({rem} < 0) != (({den}) < 0))) ? ({rem} + ({den})) : ({rem}))"
 
     def _print_Piecewise(self, expr):
         if isinstance(expr.args[0][0], Assignment):
